@@ -288,9 +288,9 @@ theorem sim_end (h : R s sp) (e : Option Val) (m : Msg) {s' : SeqState} {ev : Li
     · rw [← h1]
       exact R_pop h hs ⟨.dead, none, e, 0⟩ ⟨true, e, 0⟩ (by simp) rfl (by simp) rfl rfl
 
-theorem R_mark (h : R s sp) :
-    R { s with th := upd s.th s.cur { s.th s.cur with tbc := (s.th s.cur).tbc + 1 } }
-      { sp with co := upd sp.co s.cur { sp.co s.cur with tbc := (sp.co s.cur).tbc + 1 } } := by
+theorem R_settbc (h : R s sp) (n : Nat) :
+    R { s with th := upd s.th s.cur { s.th s.cur with tbc := n } }
+      { sp with co := upd sp.co s.cur { sp.co s.cur with tbc := n } } := by
   refine ⟨h.n_eq, h.head, ?_, h.nodup, ?_, ?_, h.lt, ?_, ?_, ?_⟩
   · refine (isChain_congr _ (fun a _ => ?_)).2 h.chain
     by_cases ha : a = s.cur
@@ -314,8 +314,15 @@ theorem R_mark (h : R s sp) :
     · simp [hu, h.co_err u]
   · intro u
     by_cases hu : u = s.cur
-    · rw [hu]; simp [h.co_tbc s.cur]
+    · rw [hu]; simp
     · simp [hu, h.co_tbc u]
+
+theorem R_mark (h : R s sp) :
+    R { s with th := upd s.th s.cur { s.th s.cur with tbc := (s.th s.cur).tbc + 1 } }
+      { sp with co := upd sp.co s.cur { sp.co s.cur with tbc := (sp.co s.cur).tbc + 1 } } := by
+  have := R_settbc h ((s.th s.cur).tbc + 1)
+  rw [h.co_tbc s.cur]
+  exact this
 
 end sim2
 
@@ -441,6 +448,19 @@ theorem sim (h : R s sp) (op : Op) {s' : SeqState} {ev : List Event}
     subst h1; subst h2
     simp only [GoluaVerif.Spec.Co.step, hcur]
     exact ⟨by first | rfl | trivial, R_mark h⟩
+  | unmark e =>
+    have htb := h.co_tbc s.cur
+    by_cases hz : (s.th s.cur).tbc = 0
+    · simp [GoluaVerif.Model.CoSeq.step, hz] at hstep
+      obtain ⟨h1, h2⟩ := hstep
+      subst h1; subst h2
+      simp only [GoluaVerif.Spec.Co.step, hcur, htb, hz, if_true]
+      exact ⟨by first | rfl | trivial, h⟩
+    · simp [GoluaVerif.Model.CoSeq.step, hz] at hstep
+      obtain ⟨h1, h2⟩ := hstep
+      subst h1; subst h2
+      simp only [GoluaVerif.Spec.Co.step, hcur, htb, hz, if_false]
+      exact ⟨by first | rfl | trivial, R_settbc h _⟩
 
 /-- thread.go's protocol panics ("Caller of thread to resume is not running", "Thread to yield
     is not running", "Called Thread.end on a non-running thread", …) cannot fire; the only
@@ -490,6 +510,9 @@ theorem no_panic (h : R s sp) (op : Op)
       simp [endThread, hok, hcur0] at hstep
     · split at hstep <;> simp at hstep
   | mark => simp [GoluaVerif.Model.CoSeq.step] at hstep
+  | unmark e =>
+    simp only [GoluaVerif.Model.CoSeq.step] at hstep
+    split at hstep <;> simp at hstep
 
 end main
 
